@@ -2,6 +2,8 @@
 import logging
 from pathlib import Path
 
+from anytree import PreOrderIter
+
 from pddl_plus_parser.exporters import ProblemExporter
 from pddl_plus_parser.lisp_parsers import DomainParser, ProblemParser
 from pddl_plus_parser.models import Problem
@@ -64,7 +66,20 @@ class MultiAgentProblemsConverter:
             combined_problem.goal_state_predicates = list(
                 set(combined_problem.goal_state_predicates)
             )
-            combined_problem.goal_state_fluents.update(agent_problem.goal_state_fluents)
+            # expression trees are hashed by identity, so equal numeric goals are recognized by their structure.
+            combined_numeric_goals = {
+                tuple(node.id for node in PreOrderIter(goal.root))
+                for goal in combined_problem.goal_state_fluents
+            }
+            for numeric_goal in agent_problem.goal_state_fluents:
+                goal_structure = tuple(
+                    node.id for node in PreOrderIter(numeric_goal.root)
+                )
+                if goal_structure in combined_numeric_goals:
+                    continue
+
+                combined_numeric_goals.add(goal_structure)
+                combined_problem.goal_state_fluents.add(numeric_goal)
 
         return combined_problem
 
